@@ -45,6 +45,11 @@ pub fn vcase() -> impl Strategy<Value = VCase> {
             p.redeemer_map = redeemer_map;
             spec.plutus = Some(p);
             spec.ref_inputs = ref_inputs;
+            // keep the recipe forgeable (nothing C08 is about): no burns of assets the inputs may not hold, enough lovelace
+            spec.mint.retain(|m| m.2 > 0);
+            if let Some(i) = spec.inputs.first_mut() {
+                i.coin = i.coin.max(150_000_000);
+            }
             VCase { spec, other }
         })
 }
